@@ -34,7 +34,7 @@ PROPERTY = "C49"
 LEVEL = "exploration"
 ENGINE = "direct"
 TECHNIQUE = "output-stream scan of the real Dumper addon under hostile flows"
-BUDGET = {"quick": (2600, 16), "thorough": (120_000, 200)}
+BUDGET = {"quick": (2000, 13), "thorough": (120_000, 200)}
 WORKERS = {"quick": 2, "thorough": 16}
 REQUIRED = ["no_control_chars", "fields_rendered"]
 RULE = (
